@@ -203,6 +203,9 @@ def replay(data):
     if 'history' in data:
         from . import histcheck
         return histcheck.replay('C10', data)
+    if data.get('kind') == 'userdict':
+        from . import userdict
+        return userdict.replay(data)
     bad, outs = analyse([tuple(x) for x in data['hist']], data['lossy'])
     return any(b.split(' (')[0] == data['label'].split(' (')[0] for b in bad)
 
@@ -260,3 +263,6 @@ def check(rep):
     # convergence over bounded histories of complete jobs on the symbolic repository
     from . import histcheck
     histcheck.check(rep, 'C10')
+    # "is this comment mine?" goes through the loaded robot identity (name@account_id)
+    from . import userdict
+    userdict.check(rep, 'C10')
